@@ -1,10 +1,40 @@
 NOTES = ("Solver-based checking of the real code only (CrossHair/z3 symbolic execution and own AST->SMT encodings regenerated from /repo on every run). "
-         "Exit 0 = held on everything explored (inconclusive conditions are reported in the evidence, never as proofs); exit 1 = replayed violation; exit 2 = harness/engine error.")
+         "Exit 0 = held on everything explored (inconclusive conditions are reported in the evidence, never as proofs); exit 1 = replayed violation; exit 2 = harness/engine error. "
+         "Every run also re-proves the engine repairs (harness/selftest.py).")
 _PENDING = "check not built yet in this round; will be claimed once its harness exists (design in DESIGN.md section 3)"
+_TRUST = "Trusted: CrossHair 0.0.110 + z3 model of CPython for the executed subset with the runtime repairs in vf/chpatch.py (re-proved in every run); symbolic strings never reach `re` (finite domains are split first); bounds and alphabets as listed in the evidence; "
 CHECKS = {
+ "C01": dict(
+    text="Generator-as-oracle contracts: a symbolic assignment and a symbolic spelling of it are turned into tokens, parsed by the real DefaultArgsParser and compared with the assignment through every accessor. Two families per (format skeleton, spelling style): STRUCTURE (which options, where, how many positionals, command names by name/alias/omitted, '--', leniency) and VALUES (option/positional/tail texts, ints, booleans, null). All paths closed per family within the stated bounds.",
+    note=_TRUST + "8 format skeletons from harness/pfmt.py; cross terms between the two families are outside the claim.",
+    technique="symbolic execution (CrossHair/z3), bounded; generator-as-oracle"),
+ "C02": dict(
+    text="For 8 format skeletons: every 1-2 token line over an adversarial alphabet and every 3-token line over a per-format literal menu is parsed strict and lenient under the solver: only the three documented exception classes escape, lenient raises no parse error, strict-ok implies identical lenient result; 7 single-fault mutations raise exactly the documented class.",
+    note=_TRUST + "token sequences of length 4-6 are outside the claim.",
+    technique="symbolic execution (CrossHair/z3), bounded"),
+ "C04": dict(
+    text="Command.handle closed for EVERY int result; whole ConsoleApplication.run (catching on) with symbolic handler results (ints, numeric strings, pinned floats/None/bools), 9 exception kinds (library/foreign/coded/chained/source-less/KeyboardInterrupt) x symbolic messages with tag fragments x verbosity x pre-handle listener behaviours: status in 0..255, 0 iff falsy, report printed, handler called exactly once, no other handler.",
+    note=_TRUST + "a full error trace costs ~5 s per path, so message alphabets are small; no report is demanded for KeyboardInterrupt (the repository's own test requires silence).",
+    technique="symbolic execution (CrossHair/z3), bounded"),
+ "C05": dict(
+    text="History form on one parser instance: parse A (may fail) then B, and A,B then C, lines drawn by symbolic indices from menus of state-relevant tokens, over same and different formats (incl. same names / different flags); outcome equals a fresh parser's. Non-mutation of argv list, raw args and format listings under symbolic tokens.",
+    note=_TRUST + "histories of 4-6 parses are outside; the parser's carried state is what the previous parses leave, exercised by 2-3 parses.",
+    technique="symbolic execution (CrossHair/z3), bounded histories"),
+ "C07": dict(
+    text="E2: _validate_flags/_validate_short_name/_add_default_flags of Option, CommandOption, Argument are translated from the current source to QF_BV; 'accept <=> documented predicate' and 'accepted => normalised consistently' are single unsat queries over every 16-bit flag word (translator validated on ~1600 concrete words per class). E1: whole constructors incl. defaults, names over an adversarial alphabet (incl. newline, non-ASCII) with/without dashes, conversions (every int text in range, all texts <= 3 chars).",
+    note=_TRUST + "z3 for QF_BV; parse_float(repr(x)) only on pinned floats (concretised, not a solver claim).",
+    technique="SMT (z3 QF_BV) over translated source + symbolic execution (CrossHair)", engine="E2 py2smt + E1 crosshair"),
+ "C08": dict(
+    text="Totality/termination for all strings up to the stated length over {a,space,tab,',\",backslash,-}; unquoted split law; quoting inverse for 1-2 (thorough 3) tokens with both quote styles and 4 separators; StringArgs vs ArgvArgs token/option-token equivalence. One condition per length split, all paths closed.",
+    note=_TRUST + "lengths beyond the bounds are outside.",
+    technique="symbolic execution (CrossHair/z3), bounded string lengths"),
  "C10": dict(
     text="For every writing entry point found by reflection on Output, SectionOutput, IO and BufferedIO (57 conditions), the solver closes all paths for EVERY Python int or None as flag word, the four verbosities and both quiet states: text reaches the stream iff not quiet and verbosity >= lowest requested level; monotonicity in the verbosity as a second contract.",
-    note="Trusted: CrossHair+z3 model of CPython with the two runtime repairs (vf/chpatch.py); message fixed to one untagged character; BufferedOutputStream only.",
-    technique="symbolic execution (CrossHair/z3), all paths closed over unbounded integer flags"),
+    note=_TRUST + "message fixed to one untagged character; BufferedOutputStream only.",
+    technique="symbolic execution (CrossHair/z3), unbounded integer flags"),
+ "C12": dict(
+    text="Operation skeletons (registrations on two events interleaved with dispatch rounds over three events + all queries) with every priority in {-1,0,1} and every stop bit symbolic; oracle = stable sort by (-priority, registration index) cut at the first stopper; all combinations closed by the solver (finite domain: priorities are dict keys).",
+    note=_TRUST + "priorities outside {-1,0,1} and random length-40 histories are outside.",
+    technique="symbolic execution (CrossHair/z3), finite domain closed"),
 }
-NOT_APPLICABLE = {p: _PENDING for p in ["C01","C02","C03","C04","C05","C06","C07","C08","C09","C11","C12","C13","C14","C15","C16","C17","C18","C19","C20"]}
+NOT_APPLICABLE = {p: _PENDING for p in ["C03","C06","C09","C11","C13","C14","C15","C16","C17","C18","C19","C20"]}
